@@ -108,7 +108,7 @@ func (r *rwRT) ruleGensym() {
 	pos := r.w.FnPos(fn)
 	// (1) behaviour outside test mode: counter incremented, name built from the counter
 	in := r.interp(rwConfig{root: fn, inlineAll: true})
-	in.Fields["*global:runningWithGoTest"] = mkBool(false)
+	r.setTestMode(in, false)
 	args := []AV{mkString("it")}
 	if fn.Signature.Recv() != nil {
 		args = []AV{Sym{Name: "r", NN: true}, mkString("it")}
@@ -306,7 +306,7 @@ type gogenRun struct {
 func (r *rwRT) pipelineInterp(root *ssa.Function, testMode bool) *Interp {
 	in := r.interp(rwConfig{root: root, boundaries: map[string]bool{"mkRewriter": true, "mkOptimizer": true, "rewriteAllFiles": true, "optimizeAllFiles": true, "resetLog": true}})
 	in.MaxVisits = 3
-	in.Fields["*global:runningWithGoTest"] = mkBool(testMode)
+	r.setTestMode(in, testMode)
 	in.OnCall = wrapOnCall(in.OnCall, func(cc *CallCtx) []Answer {
 		if cc.Fn == nil || cc.Fn.Object() == nil || cc.Fn.Object().Pkg() == nil {
 			return nil
@@ -483,13 +483,42 @@ func (r *rwRT) ruleGenHeader() {
 	c := r.c
 	c.min("GEN.HEADER", 1)
 	obj, _ := r.w.Pkgs[pathRw].Types.Scope().Lookup("fileComment").(*types.Const)
-	if obj == nil || obj.Val().Kind() != constant.String {
-		c.und("GEN.HEADER", "file header constant", "", "constant fileComment not found")
-		return
+	pos, format, text := "", "%s", ""
+	if obj != nil && obj.Val().Kind() == constant.String {
+		pos = r.w.Pos(obj.Pos())
+		format = constant.StringVal(obj.Val())
+		text = strings.ReplaceAll(format, "%s", "co")
+	} else {
+		// no such constant: the header is whatever the rewrite-stage printer of GoGen, run with the default
+		// options, hands to the file writer (that it follows a custom tag is GEN.TAG's obligation)
+		fn := r.w.Func(pathRw, "GoGen")
+		pos = r.w.FnPos(fn)
+		g, err := r.runPipeline("GoGen", []AV{mkString("/home/my_co.good/pkg"), SliceV{}}, false)
+		if err != nil || g.print1 == nil {
+			c.und("GEN.HEADER", "file header constant", pos, "neither a constant fileComment nor a rewrite-stage printer of GoGen found")
+			return
+		}
+		st := g.o.St.clone()
+		name := "/home/my_co.good/pkg/a_co.go"
+		file := st.alloc(&Obj{Kind: 's', Fields: map[string]AV{"Filename": mkString(name)}})
+		found := false
+		for _, o := range g.in.Apply(st, g.print1, []AV{mkString(name), file}) {
+			if o.Panicked {
+				continue
+			}
+			for _, e := range o.St.Events[len(st.Events):] {
+				if e.Kind == "call" && e.Fn != nil && strings.HasPrefix(e.Fn.Name(), "Write") && len(e.Args) >= 3 {
+					if cm, ok := asString(e.Args[2]); ok {
+						text, found = cm, true
+					}
+				}
+			}
+		}
+		if !found {
+			c.und("GEN.HEADER", "file header constant", pos, "the header the rewrite-stage printer writes is not a constant text")
+			return
+		}
 	}
-	pos := r.w.Pos(obj.Pos())
-	format := constant.StringVal(obj.Val())
-	text := strings.ReplaceAll(format, "%s", "co")
 	lines := strings.Split(text, "\n")
 	var err error
 	switch {
@@ -871,5 +900,93 @@ func (r *rwRT) rulePartialTypes() {
 		c.check(suppressed == "", "DET.PARTIALTYPES", construct, pos,
 			"no stage is loaded with type errors suppressed",
 			"the intermediate tree is loaded with type errors suppressed ("+suppressed+"): the optimiser's type-based decisions (eta reduction) silently change with the presence of the derived files of imported packages — generating a package before and after its dependency gives different bytes")
+	}
+}
+
+// testModeGlobals: the package-level switches of package rewriter that say "running under go test" — found by what
+// their initial value is computed from (flag.Lookup or os.Args, directly or through a function of the package), not
+// by name. Their key in the configured memory is "*global:<name>".
+func (r *rwRT) testModeGlobals() []string {
+	sp := r.w.SSA[pathRw]
+	if sp == nil {
+		return []string{"runningWithGoTest"}
+	}
+	initFn := sp.Func("init")
+	var names []string
+	if initFn != nil {
+		var fromProcess func(v ssa.Value, depth int, seen map[ssa.Value]bool) bool
+		scanBody := func(f *ssa.Function) bool {
+			for _, b := range f.Blocks {
+				for _, ins := range b.Instrs {
+					if call, ok := ins.(ssa.CallInstruction); ok {
+						if cal := call.Common().StaticCallee(); cal != nil && cal.Pkg != nil && cal.Pkg.Pkg.Path() == "flag" && cal.Name() == "Lookup" {
+							return true
+						}
+					}
+					for _, op := range ins.Operands(nil) {
+						if g, ok := (*op).(*ssa.Global); ok && g.Pkg != nil && g.Pkg.Pkg.Path() == "os" && g.Name() == "Args" {
+							return true
+						}
+					}
+				}
+			}
+			return false
+		}
+		fromProcess = func(v ssa.Value, depth int, seen map[ssa.Value]bool) bool {
+			if v == nil || depth > 12 || seen[v] {
+				return false
+			}
+			seen[v] = true
+			if g, ok := v.(*ssa.Global); ok {
+				return g.Pkg != nil && g.Pkg.Pkg.Path() == "os" && g.Name() == "Args"
+			}
+			if call, ok := v.(*ssa.Call); ok {
+				if cal := call.Common().StaticCallee(); cal != nil && cal.Pkg != nil {
+					if cal.Pkg.Pkg.Path() == "flag" && cal.Name() == "Lookup" {
+						return true
+					}
+					if cal.Pkg == sp && scanBody(cal) {
+						return true
+					}
+				}
+			}
+			if ins, ok := v.(ssa.Instruction); ok {
+				for _, op := range ins.Operands(nil) {
+					if op != nil && fromProcess(*op, depth+1, seen) {
+						return true
+					}
+				}
+			}
+			return false
+		}
+		for _, b := range initFn.Blocks {
+			for _, ins := range b.Instrs {
+				st, ok := ins.(*ssa.Store)
+				if !ok {
+					continue
+				}
+				g, ok := st.Addr.(*ssa.Global)
+				if !ok || g.Pkg != sp {
+					continue
+				}
+				if bt, isB := g.Type().(*types.Pointer).Elem().Underlying().(*types.Basic); !isB || bt.Info()&types.IsBoolean == 0 {
+					continue
+				}
+				if fromProcess(st.Val, 0, map[ssa.Value]bool{}) {
+					names = append(names, g.Name())
+				}
+			}
+		}
+	}
+	if len(names) == 0 {
+		names = []string{"runningWithGoTest"}
+	}
+	return names
+}
+
+// setTestMode configures every test-mode switch of the package.
+func (r *rwRT) setTestMode(in *Interp, on bool) {
+	for _, n := range r.testModeGlobals() {
+		in.Fields["*global:"+n] = mkBool(on)
 	}
 }
